@@ -215,6 +215,51 @@ def dataset_section(rep):
     finally:
         for k, v in old.items():
             m.globals[k] = v
+    # memoised values do not survive a change of the analysed structure: reset() clears every attribute that some method memoises, and
+    # set_system() resets before anything else is read (the fields are found in the class text on every run)
+    import ast as _ast
+    from engine.common import REPO as _REPO
+    import os as _os
+    tree = _ast.parse(open(_os.path.join(_REPO, REL)).read())
+    cls = [n for n in tree.body if isinstance(n, _ast.ClassDef) and n.name == "SymmetryAnalyzer"][0]
+    memo = set()
+    for fn in cls.body:
+        if isinstance(fn, _ast.FunctionDef) and fn.name not in ("__init__", "reset", "set_system"):
+            for node in _ast.walk(fn):
+                if isinstance(node, _ast.Assign):
+                    for t in node.targets:
+                        if isinstance(t, _ast.Attribute) and isinstance(t.value, _ast.Name) and t.value.id == "self" and t.attr.startswith("_"):
+                            memo.add(t.attr)
+    fr = m.get("SymmetryAnalyzer.reset")
+    ex = Explorer(REL + ":SymmetryAnalyzer.reset")
+    box = {}
+
+    def thunk_r(st):
+        self_ = contexts.make_self(m, "SymmetryAnalyzer", {k: Opaque("stale " + k) for k in memo})
+        box["self"] = self_
+        return Interp(st).run_func(fr, [self_], {})
+
+    oc = ex.explore(thunk_r)
+    left = sorted(k for k in memo if box["self"]._f.get(k) is not None) if (len(oc) == 1 and oc[0][0] == "return") else ["reset() did not return normally"]
+    rep.add(Ob(id="dataset.reset-clears-every-memoised-value", status="proved" if (memo and not left) else "refuted", backend="pyvc", kind="vc",
+               func=REL + ":SymmetryAnalyzer.reset", detail=("%d memoised attributes" % len(memo)) if not left else "still set after reset(): %s" % left[:6]))
+    fs = m.get("SymmetryAnalyzer.set_system")
+    ex = Explorer(REL + ":SymmetryAnalyzer.set_system")
+    order = []
+
+    class Sys3:
+        def get_pbc(self):
+            order.append("read")
+            return np.array([True, True, True])
+
+    def reset_contract(it, st, bound, site):
+        order.append("reset")
+
+    oc = ex.explore(lambda st: Interp(st, contracts={REL + ":SymmetryAnalyzer.reset": reset_contract}).run_func(fs, [contexts.make_self(m, "SymmetryAnalyzer"), Sys3()], {}))
+    ok = len(oc) == 1 and oc[0][0] == "return" and order[:1] == ["reset"] and order.count("reset") == 1
+    rep.add(Ob(id="dataset.set_system-resets-first", status="proved" if ok else "refuted", backend="pyvc", kind="vc", func=REL + ":SymmetryAnalyzer.set_system",
+               detail="" if ok else "order of events: %s / %s" % (order[:4], [o[:2] for o in oc][:2])))
+    rep.functions.append(__import__("engine.common", fromlist=["x"]).func_source_info(REL, "SymmetryAnalyzer.reset"))
     # getters: field of the dataset
     toks = {k: Opaque(k) for k in ("rotations", "translations", "choice", "origin_shift", "transformation_matrix")}
 
